@@ -1,7 +1,7 @@
 (* C11 — Keyset manager keeps keysets well-formed under any operation history.
    Only statements + `exact`; proofs live in proofs/ManagerProofs.v. *)
 From Coq Require Import List NArith Bool.
-From Tink Require Import Manager ManagerProofs.
+From Tink Require Import Manager ManagerProofs ManagerProofs2.
 Import ListNotations.
 Open Scope N_scope.
 
@@ -76,6 +76,68 @@ Theorem C11_earlier_handles_unaffected :
   forall ops s, exists l, shandles (fst (run s ops)) = shandles s ++ l.
 Proof. exact run_handles_stable. Qed.
 Print Assumptions C11_earlier_handles_unaffected.
+
+(* Over whole histories: Manager.Handle() after ANY history from an empty manager (any
+   id tape) fails iff no step of that history was a successful SetPrimary, a successful
+   AddKeyWithOpts(..., AsPrimary()) or a NewManagerFromHandle. *)
+Theorem C11_handle_fails_iff_no_primary_was_ever_set :
+  forall tape ops,
+    let s := fst (run (init_state None tape) ops) in
+    snd (step s OHandle) = RErr <->
+    existsb (fun '(o, r) => gains_primary o r) (trace (init_state None tape) ops) = false.
+Proof. exact handle_fails_iff_history. Qed.
+Print Assumptions C11_handle_fails_iff_no_primary_was_ever_set.
+
+(* ... and from any reachable state: after a run there is a primary iff there was one
+   before or some step of the run created one. *)
+Theorem C11_primary_iff_history :
+  forall ops s, SInv s ->
+    (count_prim (ents (smgr (fst (run s ops)))) = 1%nat <->
+     count_prim (ents (smgr s)) = 1%nat \/
+     existsb (fun '(o, r) => gains_primary o r) (trace s ops) = true).
+Proof. exact primary_iff_history. Qed.
+Print Assumptions C11_primary_iff_history.
+
+(* What every operation leaves untouched.  The id, id requirement and key object of
+   every entry and the order of the entries never change; an add appends exactly one
+   entry (with the id requirement the key came with), Delete removes exactly the first
+   entry with that id, NewManagerFromHandle installs the named handle. *)
+Theorem C11_ids_requirements_keys_and_order_preserved :
+  forall s o,
+    let l := ents (smgr s) in
+    let l' := ents (smgr (fst (step s o))) in
+    match o, snd (step s o) with
+    | ODelete id, ROk => l' = delete_first id l
+    | OFromHandle k, ROk => nth_error (shandles s) k = Some l'
+    | _, RId id => is_add o = true /\ map kp l' = map kp l ++ [added_kp o id]
+    | _, _ => map kp l' = map kp l
+    end.
+Proof. exact step_keyparts. Qed.
+Print Assumptions C11_ids_requirements_keys_and_order_preserved.
+
+(* Statuses and primary flags: Enable/Disable change nothing but the status of the entry
+   they name; SetPrimary changes nothing but primary flags; an add leaves every existing
+   entry exactly as it was (AddKeyWithOpts with AsPrimary: up to primary flags). *)
+Theorem C11_statuses_change_only_where_named :
+  forall s o,
+    let l := ents (smgr s) in
+    let l' := ents (smgr (fst (step s o))) in
+    match o, snd (step s o) with
+    | OEnable id, ROk | ODisable id, ROk =>
+        Forall2 (fun e e' => kp e' = kp e /\ eprim e' = eprim e /\ (eid e <> id -> est e' = est e)) l l'
+    | OSetPrimary _, ROk => map skp l' = map skp l
+    | OAddOpts _ _ _, RId _ => map skp (removelast l') = map skp l
+    | _, RId _ => removelast l' = l
+    | _, _ => True
+    end.
+Proof. exact step_status_frame. Qed.
+Print Assumptions C11_statuses_change_only_where_named.
+
+Theorem C11_delete_removes_exactly_one_entry :
+  forall id l e, find_entry l id = Some e ->
+    exists l1 l2, l = l1 ++ e :: l2 /\ delete_first id l = l1 ++ l2 /\ (forall x, In x l1 -> eid x <> id).
+Proof. exact delete_first_split. Qed.
+Print Assumptions C11_delete_removes_exactly_one_entry.
 
 (* Non-vacuity: a concrete history exercising collisions, errors and Handle. *)
 Example C11_nonvacuous :
